@@ -35,6 +35,7 @@ func init() {
 			"each serialised by an independent Go implementation of the OpenAPI style table (the driver re-encodes and must agree); allOf/anyOf/oneOf over pairs of leaf schemas × raw texts and × array/object values serialised for the cell (deepObject included); absence with and without other path/query parameters; " +
 			"plus a seeded stream of malformed / free carrier texts assembled from delimiters, prefixes and primitive tokens (incl. non-decimal integers, odd pair counts, wrong prefixes). " +
 			"Content-described parameters (content: {<media>: {schema}}): 4 locations × media key sets × 10 schemas × JSON and non-JSON texts × one / several / no values × required × allowEmptyValue (verdict only). " +
+			"Cases whose style or explode equals the location's default also run with that keyword left out of the document (style only, explode only, both). " +
 			"Every header case runs twice: as a request parameter (ValidateParameter) and as a response header (ValidateResponse → validateResponseHeader). " +
 			"A case is non-trivial when the decoder is actually entered (the driver then reports cell, shape, verdict, value kind, round-trip oracle and model≠spec branches); requests with an empty PathParams map / empty query (early return) count as trivial.",
 		Exhaustive: true,
@@ -45,8 +46,8 @@ func init() {
 		Workers:    8,
 		Assumptions: []string{
 			"number texts: strconv.ParseFloat is trusted; the model keeps the exact decimal value and the harness compares with the nearest float64",
-			"number texts with '_' digit separators, 'inf'/'nan' or hex floats are reported unsupported by the driver; texts never contain U+001F or non-ASCII characters; cookie values avoid ';', '\"', '\\' and outer spaces (net/http cookie syntax)",
-			"deepObject keys have at most three bracket segments and canonical decimal array indexes; keys whose bracket groups coincide (p[a] and p[a]zz) are order-dependent in the code: the model answers for both map orders, at most one collision of two single-valued keys per request (other shapes are reported unsupported by the driver and only run for crashes)",
+			"number texts with '_' digit separators or hex floats are reported unsupported by the driver; texts never contain U+001F or non-ASCII characters; cookie values avoid ';', '\"', '\\' and outer spaces (net/http cookie syntax)",
+			"deepObject keys of the two-level schemas have at most three bracket segments; array indexes are canonical decimals (other shapes are reported unsupported by the driver and only run for crashes)",
 			"schemas carry no default, pattern, format other than int32, nullable or nested compositions; a schema without type carries at most an enum",
 			"content-described parameters: json.Unmarshal is trusted (the driver parses the same text with Lean's JSON parser); values are scalars, arrays of scalars or flat objects of scalars (other JSON shapes are reported unsupported by the driver); JSON texts are plain (no escapes, no exotic number spellings)",
 		},
@@ -231,8 +232,11 @@ func c05Build(c hx.Case) (*openapi3.Parameter, *openapi3filter.RequestValidation
 	name := jstr(c, "name")
 	p := &openapi3.Parameter{Name: name, In: jstr(c, "in"), Required: jbool(c, "required"),
 		AllowEmptyValue: jbool(c, "allowEmpty"), Schema: c05Schema(sm).NewRef()}
-	if !jbool(c, "useDefaults") {
+	// the document may leave out style, explode, or both: Parameter.SerializationMethod supplies the defaults
+	if !jbool(c, "useDefaults") && !jbool(c, "omitStyle") {
 		p.Style = jstr(c, "style")
+	}
+	if !jbool(c, "useDefaults") && !jbool(c, "omitExplode") {
 		ex := jbool(c, "explode")
 		p.Explode = &ex
 	}
@@ -615,16 +619,16 @@ func cmpC05x(c hx.Case, impl any, reply map[string]any) hx.Verdict {
 		}
 		return im["err"] != nil || (jbool(im, "found") == jbool(m, "found") && c05Same(im["value"], m["value"], true))
 	}
-	// colliding deepObject keys: the Go map order decides; the model answers for both orders, and the decoder is run
-	// twice (hook, ValidateParameter), so value and verdict may come from different orders
+	// since f73e4f9 keys with text outside the bracket groups are skipped, so no two keys of a request share their groups
+	// and the result cannot depend on the map order; the driver still evaluates the model on the reversed query and
+	// reports a difference, which would be a modelling error (or a regression of that repair)
 	alt, _ := reply["model_alt"].(map[string]any)
+	_ = decodeSame
 	switch {
 	case alt != nil:
-		if !(decodeSame(model) || decodeSame(alt)) || !(iv == mv || iv == jstr(alt, "verdict")) {
-			v.IM = false
-			v.Detail = fmt.Sprintf("order-dependent decode: impl %s/%s matches neither map order of the model (%s/%s, %s/%s)",
-				hx.Canon(im["value"]), iv, hx.Canon(model["value"]), mv, hx.Canon(alt["value"]), jstr(alt, "verdict"))
-		}
+		v.IM = false
+		v.Detail = fmt.Sprintf("the model's result depends on the order of the query entries (%s/%s vs %s/%s)",
+			hx.Canon(model["value"]), mv, hx.Canon(alt["value"]), jstr(alt, "verdict"))
 	case ierr != merr:
 		v.IM = false
 		v.Detail = fmt.Sprintf("decode error kind: impl %s, model %s", ierr, merr)
@@ -840,7 +844,7 @@ func c05With(m map[string]any, kv ...any) map[string]any {
 var c05Texts = map[string][]string{
 	"integer": {"0", "5", "-3", "12", "907", "2147483648", "-2147483648", "9223372036854775807", "9223372036854775808"},
 	"int32":   {"0", "7", "-3", "2147483647", "2147483648", "-2147483648", "-2147483649"},
-	"number":  {"1.5", "-0.25", "3", "1e3", "2.50", "-7", "0.1", ".5", "5."},
+	"number":  {"1.5", "-0.25", "3", "1e3", "2.50", "-7", "0.1", ".5", "5.", "NaN", "-Inf", "infinity"},
 	"boolean": {"true", "false"},
 	"string":  {"a", "id", "dave", "$f", "u[", "p1", "a.b", ".bashrc", "x,y", "k=v", "a|b", "i d", ";p=", "0x", "ppq", "true", "12", "=", "idid"},
 }
@@ -961,11 +965,27 @@ func genC05(ctx *hx.Ctx, emit0 func(hx.Case)) {
 		return true
 	}
 	bools := []bool{false, true}
+	sendN := 0
 	send := func(c hx.Case, ok bool) {
 		if ok {
-			if c05IsDefault(c05Cell{jstr(c, "in"), jstr(c, "style"), jbool(c, "explode")}) {
+			cl := c05Cell{jstr(c, "in"), jstr(c, "style"), jbool(c, "explode")}
+			if c05IsDefault(cl) {
 				d := cloneCase(c)
 				d["useDefaults"] = true
+				emit(d)
+			}
+			// style spelled out, explode left to its default (and the other way round): the two defaults are independent
+			sendN++
+			defExplode := cl.in == "query" || cl.in == "cookie"
+			defStyle := map[string]string{"path": "simple", "header": "simple", "query": "form", "cookie": "form"}[cl.in]
+			if cl.explode == defExplode && sendN%2 == 0 {
+				d := cloneCase(c)
+				d["omitExplode"] = true
+				emit(d)
+			}
+			if cl.style == defStyle && sendN%3 == 0 {
+				d := cloneCase(c)
+				d["omitStyle"] = true
 				emit(d)
 			}
 			emit(c)
@@ -1210,7 +1230,8 @@ func genC05(ctx *hx.Ctx, emit0 func(hx.Case)) {
 	// D2: random — clashes, wrong shapes, deeper keys, several values, foreign keys
 	deepKeys := []string{"[a]", "[s]", "[l][0]", "[l][1]", "[l][2]", "[l]", "[a][0]", "[zz]", "[zz][q]", "[l][x]", "[s][k]", "[a][b][c]", "[l][01]",
 		"[o][x]", "[o][y]", "[o]", "[o][zz]", "[o][x][q]", "[l][0][x]", "[o][x][q][r]",
-		"[a]zz", "[a][", "[s]]", "[o][x]zz", "[l][0]x", "[a]x[b]", "[o]q[x]", "[zz]y"}
+		"[a]zz", "[a][", "[s]]", "[o][x]zz", "[l][0]x", "[a]x[b]", "[o]q[x]", "[zz]y",
+		"[l][1024]", "[l][1025]", "[l][1026]", "[l][2000]", "[l][20000000]"} // sliceMapToSlice: at most 1024 indexes beyond the elements given
 	deepVals := []string{"1", "-4", "x", "", "12", "010"}
 	nDeep := 3000
 	if ctx.Thorough() {
@@ -1301,7 +1322,7 @@ func genC05(ctx *hx.Ctx, emit0 func(hx.Case)) {
 	}
 	// random key soup of depth 1–5 over the segment vocabulary of the nested schemas: clashes, scalars for maps, maps for scalars,
 	// holes, foreign keys, junk after the brackets
-	nSegs := []string{"a", "o", "x", "q", "z", "w", "r", "u", "l", "m", "k", "s", "t", "v", "e1", "n1", "0", "1", "2", "zz", "any"}
+	nSegs := []string{"a", "o", "x", "q", "z", "w", "r", "u", "l", "m", "k", "s", "t", "v", "e1", "n1", "0", "1", "2", "zz", "any", "1024", "1025", "3000"}
 	nSoup := 4000
 	if ctx.Thorough() {
 		nSoup = 80000
@@ -1470,7 +1491,7 @@ func genC05(ctx *hx.Ctx, emit0 func(hx.Case)) {
 		}
 	}
 	// ---- F. free / malformed carrier texts
-	toks := []string{"1", "-2", "12", "a", "id", "p", "b", "true", "false", "x", "0x1F", "010", "+5", "00", "0b11", "0o17", "08", "1.5", "1e2", "-", "", "dave", "5", "0", "1_0", "-0", "+0x1"}
+	toks := []string{"1", "-2", "12", "a", "id", "p", "b", "true", "false", "x", "0x1F", "010", "+5", "00", "0b11", "0o17", "08", "1.5", "1e2", "-", "", "dave", "5", "0", "1_0", "-0", "+0x1", "NaN", "inf", "+Infinity", "nan"}
 	seps := []string{",", ",", ".", ";", "=", "|", " ", ";p=", ";id=", "", "&"}
 	allLeaves := append(append([]map[string]any{}, leaves...), c05PS("int32"), map[string]any{"k": "arr", "items": c05PS("number")},
 		map[string]any{"k": "arr", "items": c05PS("boolean")}, objSchemas[2], objSchemas[3], map[string]any{"k": "arr", "items": c05PS("int32")})
@@ -1589,7 +1610,7 @@ func shrinkC05(c hx.Case) []hx.Case {
 		x["enc"] = nil
 		return []hx.Case{x}
 	}
-	for _, k := range []string{"required", "allowEmpty", "useDefaults"} {
+	for _, k := range []string{"required", "allowEmpty", "useDefaults", "omitStyle", "omitExplode"} {
 		if jbool(c, k) {
 			x := cloneCase(c)
 			x[k] = false
